@@ -10,7 +10,7 @@ from vpc.core import cN, cstr, cbytes, clist, copt, cbool
 NF = 999999
 IMPORTS = "Require Import V.model.RecordStore."
 THEOREMS = ["get_only_put_values", "settled_reads_latest", "late_notification_relists_refuted",
-            "names_injective", "names_roundtrip", "store_constants"]
+            "served_is_held_or_in_flight", "names_injective", "names_roundtrip", "store_constants"]
 RULE = ("a case is a whole history over 2-12 keys (32-byte random keys; adversarial: keys sharing their "
         "first 8 bytes (= same nonce), sharing long prefixes/suffixes, 1-byte keys, 128-byte keys whose file "
         "name exceeds NAME_MAX) and 3-10 values (all record kinds, bad headers, 3 B - 64 KiB): validated puts "
@@ -403,6 +403,14 @@ def oracle(c, o):
                           % (i, op["op"], k, "value %d" % g if g < NF else "bytes of no known value / a wrong key")))
         if op["op"] == "get" and out["get"] != NF and out["get"] not in t.hist[op["k"]]:
             v.append(("get-foreign-value", "step %d: get(key %d) returned a value never handed in for it" % (i, op["k"])))
+        # a served record is held or a write of it is still unacknowledged (holds since the repair of put_verified)
+        if not t.partial:
+            held_now = {a for a, _ in post["idx"]}
+            for k, g in enumerate(post["gets"]):
+                if g != NF and k not in held_now and t.unacked[k] == 0:
+                    v.append(("serves-record-neither-held-nor-in-flight",
+                              "step %d (%s): get(key %d) returns value %s although the key is not listed and no write of it "
+                              "is in flight (a record refused at capacity left in the read cache?)" % (i, op["op"], k, g)))
         if post["idx"] != post["idx2"] or [a for a, _ in post["idx"]] != [k for k, b in enumerate(post["contains"]) if b]:
             v.append(("listing-views-differ", "step %d: record_addresses / record_addresses_ref / contains disagree" % i))
         if settled(post) and not crashed and not t.partial:
